@@ -80,6 +80,12 @@ class SdnvPayloadLenField(sdnv.SDNV2LenField):
 class ExtensionListField(fields.PacketListField):
     ''' Provide useful randval() that fixes scapy behavior. '''
 
+    def __init__(self, *args, **kwargs):
+        # The list is bounded by its 32-bit encoded size, not by an
+        # item count (scapy would stop at conf.max_list_count items)
+        kwargs.setdefault('max_count', 2 ** 32)
+        fields.PacketListField.__init__(self, *args, **kwargs)
+
     def randval(self):
         count = volatile.RandNum(0, 4)
         reprobj = self.cls()
